@@ -228,8 +228,11 @@ PROPS["C08"] = dict(
     technique="Lean 4 proof (decide +kernel over the regenerated label field-spec tables; selection preserved under equal label directives for any number of layers) + Go/Lean correspondence of label application through real builds for 11 kinds + who-selects-whom oracle",
     level_text="Theorems: in the regenerated tables every workload kind's selector location is paired with its pod-template location (created if absent); a labels entry "
                "without includeSelectors has no selector path; adding one label set to a selector and to the labels it selected preserves selection, for any chain "
-               "of layers; added labels are present, others untouched. The model of 'which locations a labels entry reaches' is tied to real builds for every kind.",
-    level_note=COMMON_NOTE + "fieldspec traversal below the label locations and custom field specs are oracle-only.",
+               "of layers; added labels are present, others untouched. The model of 'which locations a labels entry reaches' is tied to real builds for every kind. Entries with field specs of "
+               "their own (`fields`): the specs an entry is applied with are its own followed by the tables its flags ask for (MergeOne / MergeAll as the "
+               "code has them, asymmetric comparison included); after ANY entry a plain entry changes metadata/labels and nothing else "
+               "(own_fields_stay_own); tied to whole builds by labels.entries. Finding C08-K1 is a kernel-checked witness.",
+    level_note=COMMON_NOTE + "fieldspec traversal below the label locations is C14's filter_denotes; user `configurations:` files are oracle-only.",
     assumptions=["default transformer configuration (no custom `configurations:`)"],
     design_ref="DESIGN.md §5 C08",
 )
@@ -253,13 +256,14 @@ PROPS["C10"] = dict(
                "the name is ':' or '@' (never a longer name), the name is a literal prefix (never shorter), unmatched images are untouched. Replacement filter "
                "(model Kust.Repl of replacement.go on name/label/data scalars, tied by repl.apply): resources no target selects and fields no target names are "
                "untouched across a whole list; selected fields receive the value verbatim; a field source is unique and read from the CURRENT state, each "
-               "replacement sees its predecessors' writes; delimiter/index replace exactly the addressed piece. Patch-target selectors "
-               "(Go regexp, third-party), replicas and replacement targets are decided by the oracle with an independent matcher over near-miss families; the "
-               "unanchored [k=v] selector of replacement targets is the recorded finding C10-K1.",
-    level_note=COMMON_NOTE + "Go regexp (user-supplied selector patterns) is not modelled: anchoring is checked by the oracle only.",
+               "replacement sees its predecessors' writes; delimiter/index replace exactly the addressed piece. Selectors (model Kust.Select of "
+               "resWrangler.Select + SelectorRegex, tied by resmap.select): a selector designates exactly the resources that pass every sieve, in map order; name and "
+               "namespace are each matched against the original OR the current value, independently. Go's regexp itself, replicas and whole-build composition are "
+               "decided by the oracle with an independent matcher over near-miss families; the unanchored [k=v] selector of replacement targets is the recorded finding C10-K1.",
+    level_note=COMMON_NOTE + "Go regexp (user-supplied selector patterns) is a parameter `hit` of the selector model: that patterns are anchored is checked by the correspondence (Go's own regexp on the anchored pattern) and the oracle.",
     assumptions=["fixed-shape image regexp hand-modelled as a string function (validated by correspondence)",
                  "replacement model covers scalar fields metadata.name / metadata.labels.k / data.k, kind+name+label selectors and reject lists; "
-                 "list-element paths, non-scalar values, annotation selectors and group/version/namespace selectors are outside the model (oracle only)",
+                 "list-element paths go through Kust.Match, selectors with group/version/namespace/annotation requirements through Kust.Select; the three models are not composed",
                  "target_pieces_exact is proved for one-character delimiters (the model and the correspondence run any delimiter)"],
     design_ref="DESIGN.md §5 C10",
 )
